@@ -79,6 +79,9 @@ def U_OPS() -> Dict[str, Callable]:
         "getitem_bounded": lambda S, a: S[tuple(slice(0, max(1, s - 1)) for s in S.shape)],
         "setitem_stride_zero": lambda S, a: _set(S, tuple([slice(None, None, 2)] + [slice(None)] * (a["N"] - 1)), 0),
         "setitem_subs_scalar": lambda S, a: _set(S, a["allsubs"][::3].copy(), 7.0),
+        # a nonzero scalar assigned to a region that contains stored entries (they are replaced in place) and empty cells
+        "setitem_region_scalar": lambda S, a: _set(S, tuple(slice(0, max(1, s - 1)) for s in S.shape), 9.0),
+        "setitem_stride_scalar": lambda S, a: _set(S, tuple([slice(None)] * (a["N"] - 1) + [slice(None, None, 2)]), -4.0),
         "getitem_region_list": lambda S, a: S[tuple([[s - 1, 0] if s > 1 else [0] for s in S.shape])],
         "mul_scalar": lambda S, a: S * 2,
         "rmul_scalar": lambda S, a: 3 * S,
